@@ -16,6 +16,7 @@ import (
 	"github.com/inbucket/inbucket/v3/pkg/storage/file"
 	"github.com/inbucket/inbucket/v3/pkg/storage/mem"
 	"github.com/inbucket/inbucket/v3/vsim/models"
+	"github.com/inbucket/inbucket/v3/vsim/simfs"
 	"github.com/inbucket/inbucket/v3/vsim/simnet"
 	"github.com/inbucket/inbucket/v3/vsim/simrt"
 )
@@ -39,10 +40,14 @@ type c19Case struct {
 	// BusyHub: when shutdown is requested the hub is inside a slow listener, its
 	// queue is full and further callers are waiting to hand it events.
 	BusyHub bool
+	// Damaged (file back-end): the store contains one mailbox whose index file is garbage (bit rot,
+	// a manual edit), in the same lock bucket as the first session's mailbox.  Retention scans trip
+	// over it; that must not keep the sessions of other mailboxes from finishing.
+	Damaged bool
 }
 
 func (k *c19Case) Describe() []string {
-	l := []string{fmt.Sprintf("backend=%s retention=%v cancelAt=%v lateDials=%d busyHub=%v %s", k.Backend, k.Retention, k.CancelAt, k.LateDials, k.BusyHub, profileString(k.Net))}
+	l := []string{fmt.Sprintf("backend=%s retention=%v cancelAt=%v lateDials=%d busyHub=%v damagedMailbox=%v %s", k.Backend, k.Retention, k.CancelAt, k.LateDials, k.BusyHub, k.Damaged, profileString(k.Net))}
 	for i, s := range k.Sessions {
 		l = append(l, fmt.Sprintf("session%d %s parked at %s, continues %dms after cancel", i, s.Proto, s.Park, s.Delay))
 	}
@@ -70,6 +75,7 @@ func genC19(w *simrt.Choices, tier string, avoid map[string]bool) Case {
 	k.Retention = w.Choose(2) == 0
 	k.CancelAt = []time.Duration{0, 10 * time.Millisecond, 59 * time.Second, 61 * time.Second, 62 * time.Second}[w.Choose(5)]
 	k.BusyHub = w.Choose(4) == 1
+	k.Damaged = k.Backend == "file" && w.Choose(3) == 0
 	return k
 }
 
@@ -144,6 +150,28 @@ func runC19(c *Ctx, cs Case) {
 	conf.Storage.RetentionPeriod = 0
 	if k.Retention {
 		conf.Storage.RetentionPeriod = 30 * time.Minute
+	}
+	if k.Damaged {
+		// a mailbox whose name shares the lock bucket (first three hex digits of the hash) with box0
+		want := mailboxHash("box0")[:3]
+		name := ""
+		for i := 0; i < 200000; i++ {
+			if n := fmt.Sprintf("damaged%d", i); mailboxHash(n)[:3] == want {
+				name = n
+				break
+			}
+		}
+		if name != "" {
+			h := mailboxHash(name)
+			dir := filePath + "/mail/" + h[:3] + "/" + h[:6] + "/" + h
+			if err := simfs.MkdirAll(dir, 0o770); err != nil {
+				panic(err)
+			}
+			if err := simfs.WriteFile(dir+"/index.gob", []byte("\x07\xff\x81not a gob stream at all"), 0o660); err != nil {
+				panic(err)
+			}
+			c.Stat("fault.mailbox_with_damaged_index", 1)
+		}
 	}
 	web.Router = web.NewRouter()
 	svc, err := server.FullAssembly(conf)
